@@ -1610,7 +1610,8 @@ class BaseLoss(object):
                                      "to the number of observations")
         elif p == m:
             if q == 1:
-                x = np.ones((n, p))*x
+                # one value per state, whatever the orientation of the vector
+                x = np.ones((n, p))*x.ravel()
             else:
                 raise AssertionError("Number of input " + object_contents + 
                                      " is not equal " +
